@@ -117,6 +117,16 @@ var props = []*prop{
 		Fuzz:        &fuzzCfg{Target: "FuzzC01", Seconds: 240},
 	},
 	{
+		ID: "C02", Pkg: "c02", Level: "exploration",
+		Technique:   "property-based differential testing (rapid): the library's acceptance of structurally edited specifications against the official Swagger 2.0 JSON schema evaluated by the independent draft-4 reference evaluator",
+		LevelText:   "Generated specifications and repository fixtures, unedited or altered by 1..4 structural edits; whenever spec validation reports no error (either continue-on-errors setting), the raw document must be valid against the Swagger 2.0 schema per the reference evaluator (references into draft-04 resolved); open verdict findings are replicated exactly so that only new deviations are reported.",
+		LevelNote:   "Trusted: testdata/swagger-2.0-schema.json and jsonschema-draft-04.json (verbatim copies from go-openapi/spec v0.21.0), internal/refmodel (calibrated per run on the JSON-Schema-Test-Suite and on the petstore fixture), strfmt.Default for uri/email formats.",
+		Assumptions: trusted,
+		Builds:      plain,
+		Quick:       budget{Shards: 14, Checks: 55, TimeoutS: 600, ShrinkS: 30},
+		Thorough:    budget{Shards: 14, Checks: 1200, TimeoutS: 5000, ShrinkS: 60},
+	},
+	{
 		ID: "C03", Pkg: "c03", Level: "exploration",
 		Technique:   "property-based testing (rapid) over a specification grammar that is valid by construction, with rule-breaking edits whose documented message class is the expected outcome",
 		LevelText:   "Specifications generated from a typed grammar are accepted in all four configurations (continue-on-errors x strict path uniqueness); 27 kinds of single-rule-breaking edits (0..2 per case) must each produce an error, and with continue-on-errors the edit's own documented message; a control edit that breaks nothing must stay accepted.",
